@@ -239,12 +239,15 @@ def roundtrip_cases(draw):
             a['extras'] = draw(st.sampled_from(EXTRAS))
     # more attackers with distinct explicit ids now and then
     if m['assets'] and draw(st.integers(0, 9)) < 4:
+        # ids that are falsy, negative, or below the asset ids, as well as ones beyond every asset id
+        att_ids = draw(st.permutations([0, -2, 100, 101]))
         for j in range(draw(st.integers(1, 2))):
             L = Lang(spec)
             i = draw(st.integers(0, len(m['assets']) - 1))
             steps = L.step_names(m['assets'][i]['type'])
-            m['attackers'].append({'name': draw(st.sampled_from(['Eve', 'yes', 'Attacker:1', 'é'])) + str(j),
-                                   'id': 100 + j,
+            # in front of the attackers with automatic ids, which then lie beyond these
+            m['attackers'].insert(0, {'name': draw(st.sampled_from(['Eve', 'yes', 'Attacker:1', 'é'])) + str(j),
+                                   'id': att_ids[j],
                                    'entry_points': [[i, draw(st.lists(st.sampled_from(steps), min_size=1, max_size=2, unique=True))]]})
     return {'spec': spec, 'model': m,
             'resave': draw(st.lists(st.tuples(st.integers(0, 5), st.integers(0, 7)).map(list), max_size=2)),
